@@ -196,7 +196,9 @@ def history_tasks(module: str, seed, count: int, per_task: int = 25):
 
 
 HISTORY_NOTE = ("history stream: seeded sequences of <= 15 operations (add_node/add_edge/add_catch_edge/remove_node/compute_rpo/"
-                "immediate_dominators) on ONE real Graph object; after every query the answer is compared with the model and judged by "
+                "immediate_dominators, and direct pokes that bypass the mutators: in-place retarget / swap / remove-one-append-another "
+                "of successors in g.edges[n] or g.catch_edges[n], g.edges[n] = new list, rebinding g.edges / g.catch_edges / g.nodes, "
+                "g.entry = x, del g.edges[leaf]) on ONE real Graph object; after every query the answer is compared with the model and judged by "
                 "the oracle, both evaluated on the node/edge sets read off the Graph object at that moment - the model is a pure "
                 "function of the current graph, so any dependence of an answer on the history (stale caches, numbers left over from "
                 "an earlier state) shows up as a divergence; scripted shapes include query, remove a reachable block that is not "
